@@ -361,8 +361,13 @@ def write_evidence(ctx, level, coverage, assumptions=None):
     if ctx.known:
         ev["coverage"]["known_findings_seen"] = [k for k, _ in ctx.known]
     ev["coverage"]["skipped_subruns"] = ctx.skipped
-    os.makedirs(os.path.join(VERIF, "evidence"), exist_ok=True)
-    p = os.path.join(VERIF, "evidence", ctx.prop + ".json")
+    # evidence/ describes runs against /repo itself; a run against another tree (VERIF_REPO: a
+    # scratch worktree with a seeded change) leaves its evidence in the ignored replay area
+    edir = os.path.join(VERIF, "evidence")
+    if os.path.realpath(ctx.repo) != os.path.realpath("/repo"):
+        edir = os.path.join(VERIF, "replays", "evidence-other-tree")
+    os.makedirs(edir, exist_ok=True)
+    p = os.path.join(edir, ctx.prop + ".json")
     tmp = p + ".tmp%d" % os.getpid()
     json.dump(ev, open(tmp, "w"), indent=1, default=str)
     os.replace(tmp, p)
